@@ -10,6 +10,7 @@ CONSTANTS
   RspData <- MCRspData
   MaxReq = 2
   MaxDrain = 2
+  Deviations = {}
 INVARIANTS TypeOK ExactlyOnceRouting OwnerIsAddressRangeOwner PayloadPreserved RspToOriginator
            DrainAckOnlyWhenEmpty NoForwardWhilePaused DrainedNoOwnTraffic AllDrainedQuiet AllAnswered
 CHECK_DEADLOCK FALSE
